@@ -31,7 +31,7 @@ def role_of(failure, harness_result):
             return head
     # a failure inside the code under test (panic, overflow, OOB ...): key by function + kind
     fn = (failure.get("fn") or failure["id"].rsplit(".", 2)[0])
-    kind = d.split(":")[0][:60]
+    kind = "panic" if "placeholder message" in d else d.split(":")[0][:60]
     return "%s@%s" % (kind.strip().replace(" ", "_"), fn.replace(" ", ""))
 
 
@@ -50,7 +50,7 @@ def native_crate(scratch, name, main_rs, features=(), extra_deps=""):
 
 
 def native_run(scratch, name, main_rs, features=(), nightly=False, profiles=("dev", "release"),
-               extra_deps="", env_extra=None, timeout=900):
+               extra_deps="", env_extra=None, timeout=900, run_env=None):
     """Build and run a replay program against the scratch copy of the real crate.
     Returns list of (profile, rc, output)."""
     d = native_crate(scratch, name, main_rs, features, extra_deps)
@@ -61,10 +61,18 @@ def native_run(scratch, name, main_rs, features=(), nightly=False, profiles=("de
         env.update(env_extra)
     outs = []
     for prof in profiles:
-        cmd = ["cargo"] + (["+nightly"] if nightly else []) + ["run", "--offline", "-q"] + \
+        cmd = ["cargo"] + (["+nightly"] if nightly else []) + ["build", "--offline", "-q"] + \
               (["--release"] if prof == "release" else [])
         try:
-            r = subprocess.run(cmd, cwd=d, env=env, capture_output=True, text=True, timeout=timeout)
+            b = subprocess.run(cmd, cwd=d, env=env, capture_output=True, text=True, timeout=timeout)
+            if b.returncode != 0:
+                outs.append((prof, -100, "replay build failed: " + b.stderr[-1500:]))
+                continue
+            exe = os.path.join(env["CARGO_TARGET_DIR"], "release" if prof == "release" else "debug", "replay")
+            renv = dict(env)
+            if run_env:
+                renv.update(run_env)
+            r = subprocess.run([exe], cwd=d, env=renv, capture_output=True, text=True, timeout=timeout)
             outs.append((prof, r.returncode, r.stdout[-3000:] + ("" if r.returncode in (0, 1) else r.stderr[-1500:])))
         except subprocess.TimeoutExpired:
             outs.append((prof, -9, "timeout"))
